@@ -100,6 +100,29 @@ func c13Nil(c *core.Ctx, fns []*ssa.Function) {
 				}
 			}
 		}
+		// a private helper inherits the beliefs of its callers: the test may sit in front of the call
+		for _, k := range ipCallers(f) {
+			if o := f.Object(); o == nil || o.Exported() {
+				break
+			}
+			for _, b := range k.Blocks {
+				for _, in := range b.Instrs {
+					bo, ok := in.(*ssa.BinOp)
+					if !ok || (bo.Op != token.EQL && bo.Op != token.NEQ) {
+						continue
+					}
+					v := bo.X
+					if ssax.IsNil(v) {
+						v = bo.Y
+					} else if !ssax.IsNil(bo.Y) {
+						continue
+					}
+					if ld := loadedField(ssax.Strip(v)); ld.f != nil {
+						tested[ld.f] = true
+					}
+				}
+			}
+		}
 		for _, b := range f.Blocks {
 			for _, in := range b.Instrs {
 				// a dereference: FieldAddr / method call whose base is a load of a nil-able field
